@@ -167,9 +167,20 @@ func NewReader(filename string) (*Reader, error) {
 			return fmt.Errorf("wrong magic: %q, expected %q", string(r.header.Magic[:]), fileMagic)
 		}
 		for _, s := range r.header.Sections {
+			if s.End < s.Begin {
+				return fmt.Errorf("damaged header: section ends (%d) before it begins (%d)", s.End, s.Begin)
+			}
 			if uint64(r.size) < s.End {
 				r.size = int64(s.End)
 			}
+		}
+		// the writer appends the sections one after the other (each padded to 8
+		// bytes) and writes the header last: a header that does not describe the
+		// whole file is the remainder of an interrupted write
+		if info, err := file.Stat(); err != nil {
+			return err
+		} else if info.Size() < r.size || info.Size()-r.size >= 8 {
+			return fmt.Errorf("damaged header: sections end at %d, file has %d bytes", r.size, info.Size())
 		}
 
 		// read imports
